@@ -41,6 +41,7 @@ type Req struct {
 	PanicAt int     `json:"panic_at"` // callback panics at this row (1-based)
 	FailRead int    `json:"fail_read"` // k-th page read of the op returns an error
 	CancelAt int    `json:"cancel_at"` // drvselect: cancel the context after this many rows
+	NestAt int      `json:"nest_at"`   // the callback of this row (1-based) calls Columns() on the SAME handle
 	Until  string   `json:"until"`    // resume until: any | callback | lock | return
 }
 
@@ -74,6 +75,7 @@ type handle struct {
 	resume chan struct{} // to the op goroutine
 	busy   bool
 	trace  []string
+	nested bool // inside a nested call made by the callback: its pager events are not reported
 }
 
 func (h *handle) park(ev Event) {
@@ -167,6 +169,9 @@ func Main() int {
 			h.tr.FailAt = rq.FailRead
 			rq := rq
 			h.tr.Event = func(kind string, n int, err error) {
+				if h.nested {
+					return
+				}
 				e := Event{Kind: kind, N: n}
 				if err != nil {
 					e.Err = err.Error()
@@ -273,6 +278,17 @@ func Main() int {
 				res := ops.Run(h.d, op, func(i int) {
 					h.trace = append(h.trace, "callback")
 					h.park(Event{Kind: "callback", N: i})
+					if rq.NestAt > 0 && i+1 == rq.NestAt {
+						// a lookup from inside the row callback, on the same handle: not
+						// supported (it fails with "trying to lock a locked lock"), but whatever it
+						// does it must leave the running call's lock alone
+						h.nested = true
+						func() {
+							defer func() { recover() }()
+							h.d.Columns(rq.Table)
+						}()
+						h.nested = false
+					}
 					if rq.PanicAt > 0 && i+1 == rq.PanicAt {
 						// passes through sqlittle (its deferred unlock must run)
 						panic(injectedPanic{})
